@@ -811,13 +811,14 @@ package go9p
 
 //@ pure connok(c) = c != nil && c.Srv != nil && c.fidpool != nil && c.reqs != nil && c.Msize >= 24 && c.Srv.Upool != nil && implements(c.Srv.ops, "SrvReqOps")
 //@ pure poolok(c) = forall k int :: inmap(c.fidpool, k) ==> c.fidpool[k] != nil && c.fidpool[k].Fconn == c && c.fidpool[k].fid == k && c.fidpool[k].refcount >= 1 && c.fidpool[k].refcount <= 4611686018427387904
+//@ pure poolokh(c) = forall k int :: inmap(c.fidpool, k) ==> c.fidpool[k] != nil && c.fidpool[k].Fconn == c && c.fidpool[k].fid == k && c.fidpool[k].refcount >= 1 && c.fidpool[k].refcount <= 4611686018427387920
 //@ pure reqwf(req) = req != nil && req.Tc != nil && req.Rc != nil && connok(req.Conn)
 //@ pure reqok(req) = req != nil && req.Tc != nil && req.Rc != nil && req.Conn != nil && req.Conn.Srv != nil && implements(req.Conn.Srv.ops, "SrvReqOps")
 //@ pure iohdr() = 24
 
 //@ func (*Srv).walk(srv, req)
 //@   property C05 C06
-//@   requires srv != nil && reqwf(req) && nolocks() && req.Fid != nil && poolok(req.Conn)
+//@   requires srv != nil && reqwf(req) && nolocks() && req.Fid != nil && poolokh(req.Conn)
 //@   ghost nfwd int = 0
 //@   ghost nans int = 0
 //@   at call(SrvReqOps.Walk) ghost nfwd := nfwd + 1
@@ -948,7 +949,7 @@ package go9p
 //@   opt lockcheck
 //@   property C04 C05 C06 C19
 //@   requires conn != nil && !held(conn)
-//@   requires forall k int :: inmap(conn.fidpool, k) ==> conn.fidpool[k] != nil && !held(conn.fidpool[k])
+//@   requires forall k int :: inmap(conn.fidpool, k) ==> conn.fidpool[k] != nil && !held(conn.fidpool[k]) && conn.fidpool[k].refcount <= 4611686018427387920
 //@   ensures  !old(inmap(conn.fidpool, fidno)) ==> fid == nil
 //@   ensures  old(inmap(conn.fidpool, fidno)) ==> fid != nil && fid == old(conn.fidpool[fidno]) && fid.refcount == wrap64s(old(conn.fidpool[fidno].refcount) + 1)
 //@   assigns  old(conn.fidpool[fidno]).refcount
@@ -1092,7 +1093,7 @@ package go9p
 
 //@ func (*Srv).attach(srv, req)
 //@   property C05 C06 C04
-//@   requires srv != nil && reqwf(req) && req.Conn.Srv == srv && nolocks() && poolok(req.Conn)
+//@   requires srv != nil && reqwf(req) && req.Conn.Srv == srv && nolocks() && poolokh(req.Conn)
 //@   ghost nfwd int = 0
 //@   ghost nans int = 0
 //@   ghost authok bool = false
@@ -1195,8 +1196,9 @@ package go9p
 
 //@ func (*Clnt).Rpc(clnt, tc) (rc, err)
 //@   property C09 C14
+//@   nobody
 //@   trusted the reply delivered to a call is a decoded Fcall (proved separately for recv: C09); request/reply matching is not re-proved here
-//@   requires clnt != nil && tc != nil
+//@   requires clnt != nil && tc != nil && len(tc.Pkt) >= 7 && nolocks() && clnt.tagpool != nil
 //@   ensures  err == nil ==> rc != nil
 //@   ensures  errwf(err)
 //@   assigns  everything
@@ -1204,7 +1206,7 @@ package go9p
 //@ func (*Clnt).ReqAlloc(clnt) (req)
 //@   property C09 C14
 //@   trusted the request free list (reqchan) holds only non-nil requests
-//@   requires clnt != nil
+//@   requires clnt != nil && clnt.tagpool != nil
 //@   ensures  req != nil
 //@   assigns  everything
 
@@ -1327,7 +1329,7 @@ package go9p
 
 // A Ufs request: well-formed, its fid carries a *ufsFid whose path is confined to the export.
 //@ pure ufsaux(f) = f != nil && dyntype(f.Aux, "*ufsFid") && ival(f.Aux, "*ufsFid") != nil && confined(ival(f.Aux, "*ufsFid").path)
-//@ pure ufsreq(req) = reqwf(req) && nolocks() && ufsaux(req.Fid) && poolok(req.Conn) && len(req.Tc.Wname) <= 65535
+//@ pure ufsreq(req) = reqwf(req) && nolocks() && ufsaux(req.Fid) && poolokh(req.Conn) && len(req.Tc.Wname) <= 65535
 //@ pure upath(req) = ival(req.Fid.Aux, "*ufsFid").path
 
 //@ func dir2Qid(d) (q)
@@ -1591,6 +1593,7 @@ package go9p
 
 //@ func (*Fcall).String(fc) (s)
 //@   property C06
+//@   nobody
 //@   trusted formatting for debug output; reads the Fcall and allocates a string
 //@   assigns  fresh
 
